@@ -639,10 +639,12 @@ theorem tinv_pushToBlock2 (P : Params) (D : DzOK P) {st : St} (hT : TInv st) (c 
         rw [if_neg (by simp [hbn])]
         refine ⟨_, _, rfl, ?_, ?_⟩
         · split
-          · exact tinv_complete hT
+          · split
+            · exact tinv_complete hT
+            · exact tinv_error _ hT
           · exact hT
         · split
-          · simp
+          · split <;> simp
           · rfl
       · split
         · exact ⟨_, _, rfl, hT, rfl⟩
@@ -931,9 +933,9 @@ theorem tinv_attachMeta {st : St} (hT : TInv st) (hf : st.fdtId = none) (fdtId :
       · intro o' ho'; exact hT.roti o' (by rw [ho]; exact ho')
 
 /-- **`attach_fdt` is total on reachable states** -/
-theorem tinv_attachFdt (P : Params) (D : DzOK P) {st : St} (hT : TInv st) (fdtId : Nat) (file : Option FileEntry)
-    (hwf : WfOp (.attach fdtId file)) : ∃ st' b, attachFdt P st fdtId file = .ok (st', b) ∧ TInv st' := by
-  unfold attachFdt
+theorem tinv_attachFdtOld (P : Params) (D : DzOK P) {st : St} (hT : TInv st) (fdtId : Nat) (file : Option FileEntry)
+    (hwf : WfOp (.attach fdtId file)) : ∃ st' b, attachFdtOld P st fdtId file = .ok (st', b) ∧ TInv st' := by
+  unfold attachFdtOld attachCore
   split
   · exact ⟨_, _, rfl, hT⟩
   · rename_i hfd
@@ -963,6 +965,56 @@ theorem tinv_attachFdt (P : Params) (D : DzOK P) {st : St} (hT : TInv st) (fdtId
       obtain ⟨s6, e6, T6⟩ := tinv_pushFromCache P D T5
       rw [e6]
       exact ⟨_, _, rfl, T6⟩
+
+
+theorem tinv_reset {st : St} (hT : TInv st) (hw : st.writer = none) : TInv (resetOti st) := by
+  have hbw := hT.wbw hw
+  refine ⟨fun _ => hbw, ?_, fun h => by simp [resetOti] at h, fun _ => ⟨rfl, rfl, rfl⟩, fun _ h => by simp [resetOti] at h,
+    fun b hb => by simp [resetOti] at hb, fun h => absurd rfl h, fun l h => by simp [resetOti] at h,
+    fun o h => by simp [resetOti] at h, hT.max, .inl ⟨rfl, rfl, Nat.zero_le _⟩⟩
+  intro w h
+  have : st.bw = some w := h
+  rw [hbw] at this; cases this
+
+/-- the confrontation of the in-band OTI with the File entry returns (the partition of the FDT values does not overflow) -/
+theorem fdtConflict_total (st : St) (f : FileEntry) (hwf : WfFile f) : ∃ c, fdtConflict st f = .ok c := by
+  unfold fdtConflict
+  split
+  · exact ⟨_, rfl⟩
+  · split
+    · rename_i o fo _ _
+      split
+      · exact ⟨_, rfl⟩
+      · obtain ⟨q, hq⟩ := bp_total fo.b f.tl fo.e (by have := hwf.1; omega)
+        rw [hq]; simp only [liftRs]; exact ⟨_, rfl⟩
+    · exact ⟨_, rfl⟩
+
+/-- **`attach_fdt` is total on reachable states** -/
+theorem tinv_attachFdt (P : Params) (D : DzOK P) {st : St} (hT : TInv st) (fdtId : Nat) (file : Option FileEntry)
+    (hwf : WfOp (.attach fdtId file)) : ∃ st' b, attachFdt P st fdtId file = .ok (st', b) ∧ TInv st' := by
+  unfold attachFdt
+  split
+  · exact ⟨_, _, rfl, hT⟩
+  · rename_i hfd
+    split
+    · exact ⟨_, _, rfl, hT⟩
+    · rename_i f
+      obtain ⟨c, hc⟩ := fdtConflict_total st f hwf
+      rw [hc]
+      dsimp only
+      cases c with
+      | false =>
+        have := tinv_attachFdtOld P D hT fdtId (some f) hwf
+        unfold attachFdtOld at this
+        rw [if_neg hfd] at this
+        simpa using this
+      | true =>
+        have hw := fdtConflict_writer hc
+        have := tinv_attachFdtOld P D (tinv_reset hT hw) fdtId (some f) hwf
+        unfold attachFdtOld at this
+        have hf2 : ¬ (resetOti st).fdtId.isSome = true := by simpa [resetOti] using hfd
+        rw [if_neg hf2] at this
+        simpa using this
 
 theorem tinv_drop {st : St} (hT : TInv st) : TInv (drop st) := by
   unfold drop
